@@ -1,10 +1,69 @@
 import Driver.Util
+import Driver.StorageCodec
+import Driver.C01
 
-/-! Placeholder: the line-protocol driver of domain C29 is not written yet. -/
+/-! Driver for domain C29: `readSwampName` and the explorer's per-file decision (`scanListed`) of the
+    model on the real files' bytes; `create` is `createFileCfg`.  A reply is flagged when the model's
+    answer differs from the name the generator wrote the file under. -/
 namespace Driver.C29
+open Hv.Storage Driver.Stor Driver.C01
 
-def run (_args : List String) : IO UInt32 := do
-  IO.eprintln "drv: domain C29 has no driver yet"
-  return 2
+structure DS where
+  cfg : Cfg
+  files : List Bytes := []     -- newest first
+
+def engineKind (k : String) : Bool :=
+  k == "v3" || k == "v3app" || k == "v3open" || k == "v2" || k == "v2app" || k == "v2resv"
+
+def insertSorted (x : Bytes) : List Bytes → List Bytes
+  | [] => [x]
+  | y :: ys => if x == y then y :: ys else if bytesLe x y then x :: y :: ys else y :: insertSorted x ys
+
+def step (d : DS) (line : String) : DS × String :=
+  match line.splitOn " " with
+  | ["case", _] => ({ cfg := d.cfg }, line)
+  | ["create", nm] =>
+    match parseSpec nm with
+    | none => (d, "bad-op")
+    | some name =>
+      match createFileCfg d.cfg name 0 with
+      | none => (d, "rej longname")
+      | some st =>
+        -- `Close` right after creation: header rewrite only
+        let st' := (Hv.Storage.step d.cfg idCodec crc0 0 st .close).1
+        -- the file exists on disk and is seen by `scan`; its bytes do not depend on the codec
+        ({ d with files := st'.file :: d.files }, "ok")
+  | ["f", h, exp, kind] =>
+    match unhex h, parseSpec exp with
+    | some file, some want =>
+      let r := readSwampName d.cfg snappyDecoder crc32 file
+      let line := match r with
+        | .error e => s!"name err {e.name}"
+        | .ok n => s!"name {hex n}"
+      let good := match r with
+        | .ok n => n == want
+        | .error _ => false
+      let flag :=
+        if good || !engineKind kind then ""
+        else if 65535 < want.length then "\t#F:C29-long-name-truncated"
+        else if kind.startsWith "v2" && !d.cfg.v2Fallback then "\t#F:C29-no-v2-fallback"
+        else "\t#F:C29-name-mismatch"
+      ({ d with files := file :: d.files }, line ++ flag)
+    | _, _ => (d, "bad-op")
+  | ["scan"] =>
+    let fs := d.files
+    let scanned := (fs.filter fun f => match openReader f with | .ok _ => true | .error _ => false).length
+    let names := fs.foldl (fun acc f =>
+      match scanListed d.cfg snappyDecoder crc32 f with
+      | some n => insertSorted n acc
+      | none => acc) []
+    let ns := if names.isEmpty then "none" else ",".intercalate (names.map hex)
+    (d, s!"listing total={fs.length} scanned={scanned} errors={fs.length - scanned} names={ns}")
+  | _ => (d, "bad-op")
+
+def run (args : List String) : IO UInt32 := do
+  let kv := parseArgs args
+  lineLoop step { cfg := cfgOfArgs kv }
+  return 0
 
 end Driver.C29
